@@ -129,6 +129,14 @@ def _json_line(out):
     return None
 
 
+def _report_head(out, n=4000):
+    """the sanitizer report from its first line on (the tail of a long report is thread-creation boilerplate)"""
+    i = out.find('WARNING: ThreadSanitizer')
+    if i < 0:
+        i = out.find('MISMATCH')
+    return out[i:i + n] if i >= 0 else ''
+
+
 def _tsan_summary(out):
     kind, frames = '', []
     lines = out.splitlines()
@@ -137,7 +145,9 @@ def _tsan_summary(out):
             kind = l.strip()
             for m in lines[i + 1:i + 40]:
                 m = m.strip()
-                if m.startswith('#') and ('manif' in m or 'c14::' in m):
+                if not m and frames:
+                    break  # end of the first stack
+                if m.startswith('#') and (' manif::' in m or 'c14::exec' in m):
                     frames.append(m.split(' (')[0])
                 if len(frames) >= 3:
                     break
@@ -247,7 +257,7 @@ def run(ctx, prop, stage, tier, res):
                     if j.get('contended', 0) >= 1:
                         nontrivial.add((seed, T, L))
                         cov['contended_helper_first_uses'] += int(j['contended'])
-                    if len(samples) < 6 and (done % max(1, n // 6) == 0 or j.get('contended', 0) >= 1):
+                    if sum(1 for x in samples if x.startswith(comp + ' ')) < 3 and (done % max(1, n // 6) == 0 or j.get('contended', 0) >= 1):
                         samples.append(comp + ' ' + json.dumps(j, sort_keys=True))
                 if verdict == 'ok':
                     continue
@@ -263,7 +273,7 @@ def run(ctx, prop, stage, tier, res):
                 path = os.path.join(repdir, 'race-%d.json' % seed)
                 rep = {'property': prop, 'stage': name, 'seed': seed, 'threads': T, 'length': L, 'compiler': comp,
                        'kind': verdict, 'exit_status': rc, 'reruns': nre, 'reproduced': fails, 'reruns_inconclusive': tmo,
-                       'tsan_options': TSAN_OPTIONS, 'output': out[-4000:]}
+                       'tsan_options': TSAN_OPTIONS, 'report_head': _report_head(out), 'output': out[-4000:]}
                 with open(path, 'w') as f:
                     json.dump(rep, f, indent=1)
                 what = {'race': 'ThreadSanitizer report', 'mismatch': 'threaded result differs from the single-threaded evaluation',
@@ -305,7 +315,7 @@ def replay(ctx, prop, stage, path):
                 fails += 1
                 if not shown:
                     shown = True
-                    print(out[-4000:])
+                    print(_report_head(out) or out[-4000:])
             elif verdict in ('timeout', 'inconclusive'):
                 tmo += 1
     print('C14 replay seed=%d T=%d L=%d compiler=%s: %d of 20 launches fail (%d inconclusive)' % (seed, T, L, comp, fails, tmo))
@@ -330,16 +340,16 @@ class _FakeCtx:
         h = hashlib.sha256(('%d|' % self.seed + '|'.join(str(p) for p in parts)).encode()).digest()
         return int.from_bytes(h[:7], 'big') or 1
 
-    def repo_hash(self):
-        h = hashlib.sha256()
+    def repo_hash(self):  # same digest as vfdriver.Ctx.repo_hash, so that both share the build cache
+        ps = []
         for root in (os.path.join(self.repo, 'include'), os.path.join(self.repo, 'external', 'tl')):
-            ps = []
             for d, _, fs in os.walk(root):
                 ps += [os.path.join(d, f) for f in fs]
-            for p in sorted(ps):
-                h.update(p.encode())
-                with open(p, 'rb') as f:
-                    h.update(f.read())
+        h = hashlib.sha256()
+        for p in sorted(ps):
+            h.update(p.encode())
+            with open(p, 'rb') as f:
+                h.update(f.read())
         return h.hexdigest()[:16]
 
 
